@@ -11,7 +11,7 @@ EXPLANATION = C.EXPLANATION + ('; user cost functors are ORACLES: every call ret
 ASSUMPTIONS = ['orders, DIM, N, K, flags, map kind concrete and enumerated; decision vector, reference state, start time, energy weight, oracle values symbolic',
                'cut points: published coefficients of the workspace spline, decoded durations, reported energy (an identity that holds for free values of these holds for the real ones)',
                'constants k/K produced by run-time folding of k * (1.0/K) are read as the rational k/K (DESIGN s3.2)', 'exact real arithmetic']
-FUNCTIONS = ['SplineOptimizer::evaluate (3-cost and 2-cost overloads)', 'calculateIntegralCost (per-segment lambda, segment start times, trapezoid weights)', 'Spline::computeBasisFunctions (cubic/quintic/septic)',
+FUNCTIONS = ['SplineOptimizer::evaluate (3-cost and 2-cost overloads)', 'calculateIntegralCost (per-segment lambda, segment start times, trapezoid weights)', 'Spline::computeBasisFunctions (cubic/quintic/septic; also checked row by row against d^k/dt^k t^m)',
              'Spline::getEnergy', 'getOptimalSpline', 'SerialExecutor']
 OUTSIDE = ['K other than those listed', 'N > 3 (quick) / 4', 'floating-point rounding of k*(1/K)']
 HARD_TIMEOUT = {'quick': 900, 'thorough': 3000}
@@ -31,7 +31,7 @@ def bounds(tier):
 
 def tus(tier):
     c = cfg(tier)
-    return [build.opt_tu(o, d, 'quad', 'ident') for o in c['orders'] for d in c['dims']] + [build.opt_tu(o, 1, 'ident', 'ident') for o in c['orders']]
+    return [build.opt_tu(o, d, 'quad', 'ident') for o in c['orders'] for d in c['dims']] + [build.opt_tu(o, 1, 'ident', 'ident') for o in c['orders']] + [build.spline_tu(o, 1) for o in c['orders']]
 
 
 def tasks(tier, seed):
@@ -48,7 +48,31 @@ def tasks(tier, seed):
             T.append({'name': 'cost o%d d1 N1 K64' % o, 'order': o, 'dim': 1, 'N': 1, 'K': 64, 'kind': 'ident', 'flags': c['flags'][:2], 'seed': seed, 'timeout': 60})
         for N in (1, 2):
             T.append({'name': 'cost tident o%d d1 N%d K2' % (o, N), 'order': o, 'dim': 1, 'N': N, 'K': 2, 'kind': 'tident', 'flags': c['flags'][:2], 'seed': seed, 'timeout': 60})
+    for o in c['orders']:
+        T.append({'name': 'basis rows o%d' % o, 'fn': 'run_basis', 'order': o, 'seed': seed, 'timeout': 60})
     return T
+
+
+@C.run_scenarios
+def run_basis(t):
+    """computeBasisFunctions(t): row k, column m == d^k/dt^k t^m (the six rows the optimizer and the gradient code use)"""
+    o = t['order']
+    nc = C.NC[o]
+    tu = build.spline_tu(o, 1)
+    s = D.Script()
+    s.var('t', 0.37)
+    s.add('sp.basis t B')
+    sc = O.Scenario(ID, t['name'], tu, s, timeout=t['timeout'])
+    E = sc.enc
+    tv = E.node(sc.dag.varid['t'])
+    for k in range(6):
+        for m in range(nc):
+            ff = 1
+            for j in range(k):
+                ff *= (m - j)
+            spec = E.scale(E.pow(tv, m - k), Fraction(ff)) if (m >= k and ff) else R.VZERO
+            sc.real_eq('basis row %d (derivative order %d), column %d == %d t^%d' % (k, k, m, ff, max(m - k, 0)), 'B.%d.%d' % (k, m), spec)
+    return [sc]
 
 
 def check_eval(ID_, name, ev, tau_sign, timeout):
